@@ -147,7 +147,11 @@ def build_goto(h, tier, wd, log):
 def cbmc_cmd(h, tier, gb):
     cmd = ["cbmc", gb, "--function", h["entry"], "--unwind", str(tier_opt(h, tier, "unwind", 2))]
     k = int(defines_for(h, tier).get("VP_MEM_K", 128)) + 1
-    uws = {"memcpy.0": k, "memmove.0": k, "memmove.1": k, "memset.0": k}
+    uws = {"memcpy.0": k, "memcpy.1": k, "memmove.0": k, "memmove.1": k, "memmove.2": k, "memmove.3": k, "memset.0": k}
+    for i in range(10):
+        uws["vsnprintf.%d" % i] = 48
+        uws["vp_put_unsigned.%d" % i] = 26
+        uws["vsscanf.%d" % i] = 24
     uws.update(h.get("unwindset", {}))
     t = h["tiers"][tier]
     if isinstance(t, dict):
@@ -277,7 +281,7 @@ def native_build(h, tier, wd, log):
 
 def native_replay(exe, inputs_path, log, timeout_s=20):
     env = dict(os.environ)
-    env["ASAN_OPTIONS"] = "detect_leaks=0:abort_on_error=0:exitcode=99"
+    env["ASAN_OPTIONS"] = "detect_leaks=0:abort_on_error=0:exitcode=99:detect_odr_violation=0"
     env["UBSAN_OPTIONS"] = "print_stacktrace=1:halt_on_error=1:exitcode=99"
     p = subprocess.run([exe, inputs_path, str(timeout_s)], stdout=subprocess.PIPE, stderr=subprocess.STDOUT, env=env, timeout=timeout_s + 30)
     out = p.stdout.decode("utf-8", "replace")
@@ -363,7 +367,12 @@ def run_harness(pid, h, tier, keep=False):
             return rec
         rec["obligations"] = len(results)
         wit = [r for r in results if is_witness(r)]
-        fails = [r for r in results if r["status"] != "SUCCESS" and not is_witness(r)]
+        fails = [r for r in results if r["status"] in ("FAILURE", "ERROR") and not is_witness(r)]
+        unknown = [r for r in results if r["status"] not in ("FAILURE", "ERROR", "SUCCESS")]
+        rec["undecided"] = len(unknown)
+        if unknown and not fails:
+            rec.update(verdict="inconclusive", error="%d properties left undecided by cbmc (status %s)" % (len(unknown), unknown[0]["status"]))
+            return rec
         rec["discharged"] = len([r for r in results if r["status"] == "SUCCESS"])
         rec["witnesses"] = len(wit)
         rec["witnesses_reached"] = len([r for r in wit if r["status"] == "FAILURE"])
@@ -377,6 +386,13 @@ def run_harness(pid, h, tier, keep=False):
         # failures: confirm up to 3 of them natively
         rec["failed_properties"] = [dict(property=r["property"], description=r.get("description"), status=r["status"],
                                          location="%s:%s" % ((r.get("sourceLocation") or {}).get("file"), (r.get("sourceLocation") or {}).get("line"))) for r in fails[:12]]
+        nobody = [r for r in fails if ".no-body." in r.get("property", "")]
+        if nobody:
+            rec.update(verdict="error", error="harness lacks a stub/unit for: %s" % sorted(set(r["property"].split(".no-body.")[1] for r in nobody)))
+            return rec
+        if any(r["status"] == "ERROR" for r in fails):
+            rec.update(verdict="inconclusive", error="solver error (out of memory?) on %d properties: %s" % (len([r for r in fails if r["status"] == "ERROR"]), errtxt[:300]))
+            return rec
         model = [r for r in fails if is_model(r)]
         if model:
             rec.update(verdict="error", error="environment model limitation reached: %s" % model[0].get("description"))
@@ -401,7 +417,7 @@ def run_harness(pid, h, tier, keep=False):
                and all(c["kind"] in ("none",) for c in confs):
                 rec["verdict"] = "violation-ub-unconfirmed"
             elif not nonbound:
-                rec.update(verdict="inconclusive", error="unwinding/growth bound of the harness exceeded by the current code and the native run terminates: bound too small, nothing decided")
+                rec.update(verdict="inconclusive", error="unwinding/growth bound of the harness exceeded by the current code (%s) and the native run terminates: bound too small, nothing decided" % ",".join(sorted(set(r["property"] for r in fails))[:6]))
             else:
                 rec.update(verdict="unconfirmed", error="solver counterexample did not reproduce natively (model/stub suspect)")
         return rec
